@@ -64,7 +64,7 @@ def run(ctx, sess):
                       'payload: the header\'s payload_length for the same buffer that is written/read; header variant: 28 bytes)')
     ctx.rule('C04.7', 'failed read is not consumed: with the result of a read-chain call non-zero, no load of the call\'s output objects (header, payload buffer, core chunk state) is reachable before another read refills them')
     ctx.rule('C04.8', 'buffer freshness: payload bytes in the core read buffer are consumed only after a checked chunk read (or reconstruction) succeeded on that very path; no reader reuses the buffer across calls')
-    ctx.rule('C04.9', 'cache validity: when a read goes straight into state that outlives the call (the cached chunk header of the raw reader), every failing exit after that read marks the state invalid (tag = INVALID), so a later call cannot take the unverified bytes for a loaded header')
+    ctx.rule('C04.9', 'cache validity: when a read goes straight into state that outlives the call (the cached chunk header of the raw reader), every failing exit after that read marks the state invalid (tag = INVALID); and a field that short-cuts a reader when it is >= 0 (the cached signal length) is never left set by a call that goes on to fail')
     ctx.rule('C04.6', 'error consumption on the read chain: no result of a read-chain function is discarded')
 
     fread_sites = P.callers().get('jls_bk_fread', [])
@@ -193,6 +193,7 @@ def run(ctx, sess):
     _consumption(ctx, P, exc)
     _freshness(ctx, P, exc)
     _cache_validity(ctx, P)
+    _guarded_caches(ctx, P)
 
 
 def _footer_le(fn, cmp_block, dpath, size_arg):
@@ -633,3 +634,58 @@ def _cache_validity(ctx, P):
                'a failing exit leaves the bytes just read in %s with a valid-looking tag: the next call that finds the header "loaded" uses a header whose CRC did not match' % str(dpath),
                w.render() if w else None)
     ctx.floor('reads into instance state', n, 1)
+
+
+def _guarded_caches(ctx, P):
+    """a field that short-cuts a reader when it looks valid (early `return 0` under  F >= 0) is stored only by calls that succeed:
+    from every store of a value into F, every path to a failing return resets F to its sentinel"""
+    n = 0
+    for fn in P.all_functions():
+        if fn.file not in ('src/core.c', 'src/reader.c', 'src/track.c'):
+            continue
+        # validity guards:  if (*F >= 0) { ...; return 0; }
+        guards = []
+        for b in fn.blocks.values():
+            c = strip_casts(b.cond) if b.cond is not None else None
+            if c is None or c.get('op') != 'bin' or c['o'] not in ('>=', '>') or const_of(c['k'][1]) not in (0, -1):
+                continue
+            x = strip_casts(c['k'][0])
+            xr = df.resolve_local(fn, x['k'][0], b, len(b.events)) if (x.get('op') == 'un' and x.get('o') == '*') else None
+            fld = None
+            for nd in walk(xr if xr is not None else x):
+                if nd.get('op') == 'member' and nd.get('t') in ('i64', 'i32'):
+                    fld = nd.get('field')
+            if fld is None:
+                continue
+            # the T edge reaches a zero return without reading the file
+            w = find_path(fn, (b, 0), lambda ev, facts: 'stop' if (ev.k == 'call' and ev.callee in ('jls_core_rd_chunk', 'jls_raw_rd', 'jls_raw_chunk_seek')) else
+                          ('target' if (ev.k == 'ret' and ret_class(fn, ev, facts) in ('zero',)) else None))
+            if w is not None:
+                guards.append((b, fld, x))
+        for gb, fld, gx in guards:
+            def is_store(ev, fld=fld, gx=gx):
+                if ev.k != 'store':
+                    return None
+                lhs, rhs, o = ev.store_parts()
+                l0 = strip_casts(lhs)
+                same = show(l0) == show(gx)
+                if not same and not (l0.get('op') == 'member' and l0.get('field') == fld):
+                    return None
+                c_ = const_of(rhs) if rhs is not None else None
+                return 'reset' if (c_ is not None and c_ < 0) else 'set'
+            for ev in [e_ for e_ in fn.stores() if is_store(e_) == 'set']:
+                n += 1
+                ctx.saw(fn, 1)
+
+                def on_event(e2, facts):
+                    if is_store(e2) == 'reset':
+                        return 'stop'
+                    if e2.k == 'ret' and ret_class(fn, e2, facts) == 'nonzero':
+                        return 'target'
+                    return None
+                w = find_path(fn, ev, on_event)
+                ctx.ob('C04.9', w is None, fn.name, 'store to the cached %s' % fld, ev.where(),
+                       'no failing exit after the store (or the cache is reset first)' if w is None else
+                       'the cache is filled before a read that can fail: after the error the next call finds %s >= 0 and returns it with result 0' % fld,
+                       w.render() if w else None)
+    ctx.floor('stores to guarded caches', n, 1)
